@@ -232,8 +232,10 @@ class RegisterObject(StdTemplate[GenericArg]):
     _global_offset_: int
     _parent_offset_: GenericArg.offset
 
-    _readable_: bool = True
-    _writable_: bool = True
+    # no annotations: annotated members of templates are replaced
+    # by their (evaluated) annotation when the template is specialized
+    _readable_ = True
+    _writable_ = True
 
     _cohdlstd_objhasconfig: bool = False
 
